@@ -5,7 +5,7 @@ package harness
 // exchange and quarantine keepers: bank MsgSend / MsgMultiSend / InputOutputCoinsProv, staking
 // MsgDelegate, bank UndelegateCoinsFromModuleToAccount / BurnCoins, gov MsgDeposit, marker
 // MsgWithdraw / MsgTransfer (forced), exchange MsgMarketWithdraw, quarantine accept,
-// HoldKeeper.AddHold / ReleaseHold, the SpendableBalances queries and the hold invariant, on
+// HoldKeeper.AddHold / ReleaseHold / InitGenesis (one account in several entries), the SpendableBalances queries and the hold invariant, on
 // base / delayed- and continuous-vesting / module / marker / market accounts carrying holds,
 // with amounts around balance−hold and balance−hold−unvested.  The user accounts of a history get
 // generated ADDRESSES (length 1..255, 0xff / 0x00 tails and heads, all-0xff, a longer address
@@ -36,6 +36,7 @@ import (
 	clienttx "github.com/cosmos/cosmos-sdk/client/tx"
 	"github.com/cosmos/cosmos-sdk/crypto/keys/secp256k1"
 	sdk "github.com/cosmos/cosmos-sdk/types"
+	sdkquery "github.com/cosmos/cosmos-sdk/types/query"
 	"github.com/cosmos/cosmos-sdk/types/tx/signing"
 	authsigning "github.com/cosmos/cosmos-sdk/x/auth/signing"
 	sdkerrors "github.com/cosmos/cosmos-sdk/types/errors"
@@ -647,6 +648,31 @@ func (e *lockEnv) exec(op string) string {
 		return e.run(func(ctx sdk.Context) error {
 			return a.HoldKeeper.AddHold(ctx, e.addr[ws[1]], lockParseCoins(ws[2]), "verif")
 		})
+	case "ginit": // ginit X:coins|X^:coins|Y:coins : the hold module's genesis import with these entries, in this order
+		// (X^ = the address of X spelled in upper-case bech32).  A genesis state that the module's own
+		// GenesisState.Validate refuses is not imported (err:genvalidate); InitGenesis panics on an entry
+		// it refuses, and nothing of the import stays.
+		names, coins := e.parseParts(ws[1])
+		gs := &hold.GenesisState{}
+		for i, n := range names {
+			upper := strings.HasSuffix(n, "^")
+			ad, ok := e.addr[strings.TrimSuffix(n, "^")]
+			if !ok {
+				return "bad-op"
+			}
+			bech := ad.String()
+			if upper {
+				bech = strings.ToUpper(bech)
+			}
+			gs.Holds = append(gs.Holds, &hold.AccountHold{Address: bech, Amount: coins[i]})
+		}
+		if err := gs.Validate(); err != nil {
+			return "err:genvalidate"
+		}
+		return e.run(func(ctx sdk.Context) error {
+			a.HoldKeeper.InitGenesis(ctx, gs)
+			return nil
+		})
 	case "commit": // a further hold placed by the exchange: MsgCommitFunds -> AddCommitment -> AddHold
 		msg := &exchange.MsgCommitFundsRequest{Account: e.addr[ws[1]].String(), MarketId: 1, Amount: lockParseCoins(ws[2])}
 		return e.run(func(ctx sdk.Context) error {
@@ -777,12 +803,21 @@ func (e *lockEnv) exec(op string) string {
 	case "spendable":
 		ad := e.addr[ws[1]]
 		return Guard(func() string {
-			resp, err := a.BankKeeper.SpendableBalances(e.ctx, &banktypes.QuerySpendableBalancesRequest{Address: ad.String()})
+			// the answer is paginated (100 entries by default): ask for ONE page that has room for all of it
+			resp, err := a.BankKeeper.SpendableBalances(e.ctx, &banktypes.QuerySpendableBalancesRequest{Address: ad.String(),
+				Pagination: &sdkquery.PageRequest{Limit: 100000}})
 			if err != nil {
 				return "err:query"
 			}
 			var by sdk.Coins
-			for _, c := range a.BankKeeper.GetAllBalances(e.ctx, ad) {
+			bals := a.BankKeeper.GetAllBalances(e.ctx, ad)
+			for i, c := range bals {
+				// the per-denom query of an account with very many denoms is asked for a sample of them
+				// only (every such query reads all of the account's holds): the first and last eight in
+				// denom order and the eight around the hundredth
+				if n := len(bals); !(n <= 24 || i < 8 || i+8 >= n || (i >= 96 && i < 104)) {
+					continue
+				}
 				r2, err := a.BankKeeper.SpendableBalanceByDenom(e.ctx, &banktypes.QuerySpendableBalanceByDenomRequest{Address: ad.String(), Denom: c.Denom})
 				if err != nil || r2.Balance == nil {
 					return "err:query"
@@ -1337,6 +1372,64 @@ func lockHistory(e *lockEnv, rng *RNG, out *Out, h int) {
 		}
 		return strings.Join(ps, ",")
 	}
+	// ---- the NUMBER OF DENOMS an account has on hold: in a "wide" history one account owns, and has
+	// on hold, funds of about a hundred or more FURTHER denoms (a seller of many NFTs, each its own
+	// denom; a large multi-denom commitment), so that the per-account listing the bank's locked-coins
+	// getter reads has that many entries.  Their names sort before, between or after the usual three
+	// denoms; the routes of the history then debit some of them (the first, the last, the ones
+	// around the hundredth entry, random ones) next to the usual denoms.
+	wideHist := rng.Chance(4)
+	if wideHist {
+		out.Count("history:wide")
+		n := Pick(rng, []int{99, 100, 101, 101, 102, 105, 110, 120, 128, 150})
+		out.Count(fmt.Sprintf("wide:n=%d", n))
+		pfx := Pick(rng, []string{"aa", "asset", "nft/", "scope.", "sz", "zz"})
+		w := Pick(rng, holders)
+		out.Count("wide:acct:" + w)
+		var wide []string
+		var fundCs, holdCs sdk.Coins
+		for i := 0; i < n; i++ {
+			d := fmt.Sprintf("%s%03d", pfx, i)
+			wide = append(wide, d)
+			b := int64(1 + rng.Intn(4))
+			h := b
+			if rng.Chance(30) {
+				h = 1 + int64(rng.Intn(int(b)))
+			}
+			fundCs = append(fundCs, sdk.NewInt64Coin(d, b))
+			holdCs = append(holdCs, sdk.NewInt64Coin(d, h))
+		}
+		g.emit("fund " + w + " " + lockCoinsStr(sdk.NewCoins(fundCs...)))
+		g.emit("dump")
+		for _, d := range denoms { // some of the usual denoms go on hold with them
+			sp := e.app.BankKeeper.SpendableCoins(e.ctx, e.addr[w]).AmountOf(d)
+			if sp.IsPositive() && rng.Chance(50) {
+				holdCs = append(holdCs, sdk.NewCoin(d, sdkmath.NewInt(1+int64(rng.U64()%uint64(minI64(sp.Int64(), 1<<40))))))
+			}
+		}
+		g.emit("hold " + w + " " + lockCoinsStr(sdk.NewCoins(holdCs...)))
+		g.emit("dump")
+		g.emit("spendable " + w)
+		g.emit(fmt.Sprintf("kspend %s vb=0 hb=0", w))
+		g.emit("inv")
+		picks := []string{wide[0], wide[n-1], wide[rng.Intn(n)], wide[rng.Intn(n)]}
+		if n > 100 {
+			picks = append(picks, wide[99], wide[100])
+		}
+		if lockIsUser(w) || w == "S" {
+			for i := 0; i < 3; i++ {
+				d := Pick(rng, picks)
+				to := "B"
+				if w == "B" {
+					to = "A"
+				}
+				g.emit(fmt.Sprintf("send %s %s %s", w, to, coinOf(w, d)))
+				g.emit("dump")
+			}
+		}
+		plain = append(plain, picks...)
+		denoms = append(denoms, picks...)
+	}
 	now := t0
 	var qsenders []string
 	noteQ := func(op, res, f string) {
@@ -1807,9 +1900,106 @@ func lockHistory(e *lockEnv, rng *RNG, out *Out, h int) {
 			qsenders = append(qsenders, p)
 		}
 	}
+	// ---- the hold module's genesis import (InitGenesis): holds placed entry by entry, one account in
+	// more than one entry (a second spelling of its address; the same spelling twice is refused by the
+	// genesis validation), the entries of an account TOGETHER at its spendable boundary
+	ginitStep := func() {
+		type ent struct {
+			n  string
+			cs sdk.Coins
+		}
+		var ents []ent
+		placed := map[string]sdk.Coins{}
+		spelled := map[string]int{}
+		first := map[string]string{}
+		accts := 1 + rng.Intn(2)
+		for ai := 0; ai < accts; ai++ {
+			n := Pick(rng, holders)
+			if rng.Chance(60) {
+				n, _ = pickSrc(holders, denoms)
+			}
+			if spelled[n] > 0 {
+				continue
+			}
+			k := Pick(rng, []int{1, 2, 2, 2, 2, 2, 2, 2, 2, 3})
+			ds := []string{Pick(rng, denoms)}
+			if rng.Chance(25) {
+				ds = append(ds, Pick(rng, denoms))
+			}
+			for j := 0; j < k; j++ {
+				var cs sdk.Coins
+				for _, d := range ds {
+					sp := e.app.BankKeeper.SpendableCoins(e.ctx, e.addr[n]).AmountOf(d)
+					left := sp.Sub(placed[n].AmountOf(d))
+					var x sdkmath.Int
+					switch v := rng.Intn(12); {
+					case v < 3 && j > 0: // what the earlier entries left, exactly / one more / one less
+						x = left.AddRaw(int64(rng.Intn(3) - 1))
+					case v < 4: // on its own within the spendable balance, together with the others maybe not
+						x = sp
+						if sp.GT(sdkmath.OneInt()) && rng.Bool() {
+							x = sdkmath.NewInt(1 + int64(rng.U64()%uint64(minI64(sp.Int64(), 1<<40))))
+						}
+					case v < 5:
+						x = sp.AddRaw(1)
+					default:
+						if left.IsPositive() {
+							x = sdkmath.NewInt(1 + int64(rng.U64()%uint64(minI64(left.Int64(), 1<<40))))
+						} else {
+							x = sdkmath.OneInt()
+						}
+					}
+					if x.IsPositive() && cs.AmountOf(d).IsZero() {
+						cs = cs.Add(sdk.NewCoin(d, x))
+					}
+				}
+				if len(cs) == 0 {
+					continue
+				}
+				name := n
+				if rng.Chance(30) {
+					name = n + "^"
+				}
+				if spelled[n] == 1 && !rng.Chance(8) { // mostly the OTHER spelling (the same one again is refused by GenesisState.Validate)
+					name = n + "^"
+					if first[n] == name {
+						name = n
+					}
+				}
+				if spelled[n] == 0 {
+					first[n] = name
+				}
+				spelled[n]++
+				placed[n] = placed[n].Add(cs...)
+				ents = append(ents, ent{name, cs})
+			}
+		}
+		if len(ents) == 0 {
+			return
+		}
+		if len(ents) > 1 && rng.Bool() { // the entries of one account need not be adjacent
+			i, j := rng.Intn(len(ents)), rng.Intn(len(ents))
+			ents[i], ents[j] = ents[j], ents[i]
+		}
+		var ps []string
+		multi := false
+		for _, en := range ents {
+			ps = append(ps, en.n+":"+lockCoinsStr(en.cs))
+			multi = multi || spelled[strings.TrimSuffix(en.n, "^")] > 1
+		}
+		if multi {
+			out.Count("ginit:account-in-several-entries")
+		}
+		g.emit("ginit " + strings.Join(ps, "|"))
+	}
 	steps := 11 + rng.Intn(15)
+	if wideHist { // every dump of such a history is long
+		steps = 5 + rng.Intn(7)
+	}
 	for s := 0; s < steps; s++ {
-		switch k := rng.Intn(141); {
+		switch k := rng.Intn(147); {
+		case k >= 141:
+			ginitStep()
 		case k >= 127:
 			txStep()
 		case k >= 100:
